@@ -126,3 +126,23 @@ let () =
         ^ ",\"printed\":" ^ jtext (print_multi q (nat_of_int (as_int ind)) s)
         ^ ",\"read_lit\":" ^ jtext (read_multi lit) ^ "}"
     | _ -> raise (Bad "mstr"))
+
+(* C04/C16/C18: number literals.  (num (cps of a token)) reads it in every way; (numprint z off b neg upp upd k n) spells *)
+let () =
+  let jopt f = function None -> "null" | Some x -> f x in
+  register "num" (function
+    | L [ _; tok ] ->
+        let t = as_text tok in
+        "{\"r\":\"ok\",\"int\":" ^ jopt (fun z -> jstr (string_of_z z)) (read_int t)
+        ^ ",\"pos\":" ^ jopt (fun (z, o) -> "[" ^ jstr (string_of_z z) ^ "," ^ string_of_int (int_of_n o) ^ "]") (read_pos_arg t)
+        ^ ",\"fixed\":" ^ jopt jtext (read_fixed t)
+        ^ ",\"dectok\":" ^ (if is_decimal_token t then "true" else "false") ^ "}"
+    | _ -> raise (Bad "num"));
+  register "numprint" (function
+    | L [ _; z; off; b; neg; upp; upd; k; n ] ->
+        let nn = (match as_z n with Z0 -> N0 | Zpos p -> Npos p | Zneg _ -> raise (Bad "numprint: n")) in
+        "{\"r\":\"ok\",\"dec\":" ^ jtext (spell_dec (as_z z))
+        ^ ",\"pos\":" ^ jtext (print_pos_arg (as_z z) (n_of_int (as_int off)))
+        ^ ",\"radix\":" ^ jtext (spell_radix (n_of_int (as_int b)) (as_bool neg) (as_bool upp) (as_bool upd) (nat_of_int (as_int k)) nn)
+        ^ ",\"zero\":" ^ jtext (spell_zero (as_bool neg) (nat_of_int (as_int k))) ^ "}"
+    | _ -> raise (Bad "numprint"))
